@@ -18,7 +18,7 @@ func defunFromList(name string, args slip.List, p *slip.Printer) Node {
 		args: argsFromList(args[1], p),
 	}
 	if sym, ok := args[0].(slip.Symbol); ok {
-		defun.fname = string(sym)
+		defun.fname = string(sym.Readably(nil, p))
 	}
 	args = args[2:]
 	defun.children = make([]Node, len(args))
